@@ -19,6 +19,12 @@ CLAIMED = {
         text="Token soup, arbitrary UTF-8, token mutations of every shipped .ucg/fuzz-corpus file and of generated programs, a catalogue of ~1,700 edge-operand programs and deep-but-allowed nesting are driven through tokenize, parse, fmt, eval, build (type checker) and all converters in-process and through `ucg build|fmt|test`; the oracle is the absence of panic/abort/hang events and exit status in {0,1} with a message. 'Terminates' is monitored as bounded progress (10 s per stage, confirmed alone at 30 s).",
         note="Trusted: the watchdog bound as a stand-in for termination; the probe is built with overflow-checks/debug-assertions on (semantics of `cargo build`). Excluded inputs (nesting > 64, module self-recursion, ranges > 10^6) are counted, not judged.",
         design="DESIGN.md section 4, C04"),
+    "C05": dict(
+        engine="probe",
+        technique="runtime monitor: metamorphic oracles on the formatter (parse(fmt(t)) == parse(t), comment sequence preserved per an independent tokenizer, fmt idempotent) + CLI/library differential",
+        text="Generator programs under random layouts with comments in every position, a catalogue of literal and comment forms, and every .ucg file in the repository are formatted by the real AstPrinter (the exact code path of `ucg fmt`); the formatted text must parse to the same tree (positions and field-name quoting ignored), carry the same comment texts in the same order as read by my own tokenizer, and be a fixed point where the property demands it; `ucg fmt` and `ucg fmt -w` must produce the same bytes.",
+        note="Trusted: the probe's AST serializer (what counts as 'the same tree'), vf/reftok.py for comment extraction.",
+        design="DESIGN.md section 4, C05"),
     "C11": dict(
         engine="probe",
         technique="runtime monitor: reference-model oracle (maximal-munch reference tokenizer) on token type/fragment/line/column/offset; exhaustive token pairs (+ triples in thorough); metamorphic layout invariance of tokens and parse trees",
